@@ -77,7 +77,7 @@ def big_tagcount(r):
     return rt.frame(bytes(b)) if framed else bytes(b)
 
 
-JUNK_CLASSES = 20
+JUNK_CLASSES = 22
 
 
 def junk(r, good_srv, k=None):
@@ -86,6 +86,21 @@ def junk(r, good_srv, k=None):
         k = r.randrange(JUNK_CLASSES)
     if k == 19:
         return big_tagcount(r)
+    if k == 20:  # a tag written twice in an otherwise ordinary classic request of legal size (tags must strictly increase)
+        n = rnd(r, 64)
+        which = r.randrange(3)
+        f = [[("NONC", n), ("NONC", n), ("PAD", b"")], [("NONC", n), ("NONC", rnd(r, 64)), ("PAD", b"")], [("NONC", n), ("PAD", b""), ("PAD", b"")]][which]
+        base = len(rt.encode(f)); pad = 1024 - base; pad -= pad % 4
+        f[-1] = (f[-1][0], bytes(pad))
+        return rt.encode(f)
+    if k == 21:  # the same in an IETF request: VER or NONC or the padding twice
+        n = rnd(r, 32)
+        which = r.randrange(3)
+        f = [[("VER", rt.DRAFT13), ("VER", rt.DRAFT13), ("NONC", n), ("ZZZZ", b"")], [("VER", rt.DRAFT13), ("NONC", n), ("NONC", n), ("ZZZZ", b"")],
+             [("VER", rt.DRAFT13), ("NONC", n), ("ZZZZ", b""), ("ZZZZ", b"")]][which]
+        base = len(rt.encode(f)); pad = 1024 - base; pad -= pad % 4
+        f[-1] = (f[-1][0], bytes(pad))
+        return rt.frame(rt.encode(f))
     if k == 16:  # >= 3 tags, mutated offset table (IETF request with SRV has 4 tags)
         return offset_mutant(r, valid_ietf(r, srv=good_srv if r.random() < 0.5 else None), 12)
     if k == 17:  # classic request with an extra field so that it has 3 tags
@@ -690,9 +705,11 @@ GOOD_SRV = hashlib.sha512(b"\xff" + bytes.fromhex(PK)).digest()[:32]
 def run_c07(ctx):
     eng = run_generic(ctx, "C07", "datagrams of length 0..65507 (random, truncated / extended valid requests at every length around the gates, every aligned valid size, aligned nonce lengths, frame-length values, field mutations) through request classification (impl / model / Coq spec) and through the in-process server incl. full batches of 64 for maximum-depth paths; non-trivial = distinct datagram that passes the length gate, or a round with an accepted request")
     classify_compare(ctx, GOOD_SRV, length_stream(ctx, GOOD_SRV))
+    r = ctx.rng
+    # every class of unanswerable datagram, several of each, whatever the random rounds happened to draw
+    classify_compare(ctx, GOOD_SRV, [junk(r, GOOD_SRV, k) for k in range(JUNK_CLASSES) for _ in range(4)])
     # full batches of maximum depth, both protocols: reply length vs request length
     eng2 = Engine(ctx, "C07")
-    r = ctx.rng
     for b in (64, 63, 33):
         rounds = [[(i % 8, valid_classic(r, 1024)) for i in range(64)], [(i % 8, valid_ietf(r, size=1012)) for i in range(64)],
                   [(i % 8, valid_classic(r, 1024) if i % 2 else valid_ietf(r, size=1012)) for i in range(64)]]
